@@ -468,3 +468,71 @@ package argmapper
 //@   ensures  result == hashO(v.Type, v.Subtype)
 //@   assigns  []interface{}
 //@   modifies nothing
+
+// ---------------------------------------------------------------- value_set.go helpers used by the resolver
+//@ func (*ValueSet).lifted
+//@   pure
+//@   ensures result == t.isLifted
+//@ func (*ValueSet).empty
+//@   pure
+//@   ensures result == (t.structType == nil || len(t.values) == 0)
+//@ extern (*Value).String :: (v *Value) string
+//@   pure
+
+// the graph vertex (and so the hash code) under which a declared value is looked up
+//@ ghost vhash(v *Value) any = ite(v.Name != "", hashV(v.Name, v.Type, v.Subtype), hashA(v.Type, v.Subtype))
+//@ func (*Value).vertex
+//@   requires v != nil
+//@   ensures  [kind] ite(v.Name != "", typeis(result, *valueVertex) && as(result, *valueVertex) != nil && fresh(as(result, *valueVertex)) && as(result, *valueVertex).Name == v.Name && as(result, *valueVertex).Type == v.Type && as(result, *valueVertex).Subtype == v.Subtype && !valid(as(result, *valueVertex).Value),
+//@                         typeis(result, *typedArgVertex) && as(result, *typedArgVertex) != nil && fresh(as(result, *typedArgVertex)) && as(result, *typedArgVertex).Type == v.Type && as(result, *typedArgVertex).Subtype == v.Subtype && !valid(as(result, *typedArgVertex).Value))
+//@   ensures  [hash] hc(result) == vhash(v)
+//@   assigns  valueVertex, typedArgVertex, []interface{}
+//@   modifies nothing
+
+//@ func (*ValueSet).newStructValue
+//@   requires t != nil
+//@   ensures  result != nil && fresh(result) && result.typ == t
+//@   ensures  imp(t.structType != nil, valid(result.value) && rtypeof(result.value) == t.structType && settable(result.value))
+//@   assigns  structValue, rvfresh
+//@   modifies nothing
+
+//@ func (*structValue).Field
+//@   pure
+//@   requires [struct-field-in-range] v != nil && valid(v.value) && kindof(rtypeof(v.value)) == 25 && 0 <= idx && idx < numField(rtypeof(v.value))
+//@   ensures  result == vfield(v.value, idx)
+
+// ---------------------------------------------------------------- call.go: callDirect (C02 C04 C09 C11 C17)
+// Ghost execution state: nexec counts executions of user functions, Func.execs
+// those of one Func, failed holds the final error of the last executed
+// function (nil if none), planning is set while Redefine plans.
+//@ ghostvar nexec int
+//@ ghostvar failed any
+//@ ghostvar planning bool
+//@ ghostfield Func.execs int
+//@ uf zeroFn(v reflect.Value) bool
+
+//@ ghost cachedOnce(f *Func) bool = f.once && f.onceResult != nil
+//@ func (*Func).callDirect
+//@   requires f.input != nil && argMap != nil
+//@   requires [no-earlier-failure] failed == nil
+//@   requires [planning-runs-stand-ins-only] imp(planning, zeroFn(f.fn))
+//@   ensures  [cached-result-not-executed] imp(old(cachedOnce(f)), nexec == old(nexec) && f.execs == old(f.execs) && failed == old(failed) && result.out == old(f.onceResult.out) && result.buildErr == old(f.onceResult.buildErr) && f.onceResult == old(f.onceResult))
+//@   ensures  [missing-argument-not-executed] forall(j, int, imp(!old(cachedOnce(f)) && 0 <= j && j < len(f.input.values) && !has(argMap, vhash(f.input.values[j])), nexec == old(nexec) && f.execs == old(f.execs) && failed == old(failed) && result.buildErr != nil && len(result.out) == 0 && f.onceResult == old(f.onceResult)))
+//@   ensures  [executed-once-with-all-arguments] imp(!old(cachedOnce(f)) && forall(j, int, imp(0 <= j && j < len(f.input.values), has(argMap, vhash(f.input.values[j])))), nexec == old(nexec) + 1 && f.execs == old(f.execs) + 1 && result.buildErr == nil)
+//@   ensures  [raw-outputs] imp(!old(cachedOnce(f)) && result.buildErr == nil, len(result.out) == numOut(rtypeof(f.fn)) && forall(i, int, imp(0 <= i && i < len(result.out), valid(result.out[i]) && rtypeof(result.out[i]) == outType(rtypeof(f.fn), i))))
+//@   ensures  [failure-recorded] imp(!old(cachedOnce(f)) && result.buildErr == nil, failed == ite(len(result.out) > 0, errOf(result.out[len(result.out)-1]), nil))
+//@   ensures  [once-memoises-every-first-result] imp(f.once && !old(cachedOnce(f)) && result.buildErr == nil, f.onceResult != nil && fresh(f.onceResult) && f.onceResult.out == result.out && f.onceResult.buildErr == nil)
+//@   ensures  [not-once-no-cache] imp(!f.once, f.onceResult == old(f.onceResult))
+//@   ensures  f.once == old(f.once) && f.fn == old(f.fn) && f.input == old(f.input) && f.output == old(f.output)
+//@   assigns  Func.onceResult, Func.execs, Result, structValue, valueVertex, typedArgVertex, []interface{}, []error, []reflect.Value, rvstore, rvfresh, nexec, failed
+//@   modifies f
+//@   before "out := f.fn.Call(in)" assert [nothing-runs-after-a-failure] failed == nil
+//@   before "out := f.fn.Call(in)" assert [redefine-runs-no-user-code] imp(planning, zeroFn(f.fn))
+//@   after "out := f.fn.Call(in)" set nexec = nexec + 1
+//@   after "out := f.fn.Call(in)" set f.execs = f.execs + 1
+//@   after "out := f.fn.Call(in)" set failed = ite(len(out) > 0, errOf(out[len(out)-1]), nil)
+//@   loop 1 invariant f.onceResult == old(f.onceResult) && f.execs == old(f.execs) && nexec == old(nexec) && failed == old(failed) && structVal != nil && f.once == old(f.once) && f.fn == old(f.fn) && f.input == old(f.input) && f.output == old(f.output)
+//@   loop 1 invariant forall(j, int, imp(0 <= j && j < idx1 && !has(argMap, vhash(f.input.values[j])), buildErr != nil))
+//@   loop 1 invariant imp(forall(j, int, imp(0 <= j && j < idx1, has(argMap, vhash(f.input.values[j])))), buildErr == nil)
+//@   loop 2 invariant f.onceResult == old(f.onceResult) && f.execs == old(f.execs) && nexec == old(nexec) && failed == old(failed) && buildErr == nil && f.once == old(f.once) && f.fn == old(f.fn) && f.input == old(f.input) && f.output == old(f.output)
+//@   loop 2 invariant forall(j, int, imp(0 <= j && j < len(f.input.values), has(argMap, vhash(f.input.values[j]))))
